@@ -256,7 +256,7 @@ func separateComponentsNestedStatementsCombinationsAndComponentPairs(statement s
 			// Extract statements of structure (e.g., Cac{ LEFT [AND] RIGHT }) -
 			// Note: component prefix is necessary for combinations and single nested statements; not allowed in component pair combinations
 			// Use of terminated statements is important to capture complete nested statements (prefiltering before guarantees nested structures)
-			r2, err2 := regexp.Compile(NESTED_COMBINATIONS_TERMINATED)
+			r2, err2 := regexp.Compile(nonCapturingGroups(NESTED_COMBINATIONS_TERMINATED))
 			if err2 != nil {
 				Println("Error in regex compilation: ", err2.Error())
 				return nil, tree.ParsingError{ErrorCode: tree.PARSING_ERROR_UNEXPECTED_ERROR, ErrorMessage: "Error in Regular Expression compilation. Error: " + err2.Error()}
@@ -947,7 +947,7 @@ Returns identified component pair combinations as string array.
 */
 func identifyComponentPairCombinations(statement string) ([]string, tree.ParsingError) {
 
-	r, err := regexp.Compile(COMPONENT_PAIR_COMBINATIONS)
+	r, err := regexp.Compile(nonCapturingGroups(COMPONENT_PAIR_COMBINATIONS))
 	if err != nil {
 		Println("Error in regex compilation: ", err.Error())
 		return nil, tree.ParsingError{ErrorCode: tree.PARSING_ERROR_UNEXPECTED_ERROR, ErrorMessage: "Error in Regular Expression compilation. Error: " + err.Error()}
